@@ -399,7 +399,7 @@ impl SubCheck for Stubs {
 		"stubs"
 	}
 	fn cases(&self, tier: Tier) -> u32 {
-		tier.pick(20_000, 500_000)
+		tier.pick(300_000, 6_000_000)
 	}
 	fn strategy(&self, _tier: Tier) -> BoxedStrategy<C17Case> {
 		let via = prop_oneof![5 => Just(Via::Stub), 2 => (0u8..3).prop_map(Via::Alias), 2 => (0u8..3).prop_map(Via::ByName), 2 => (1u8..3).prop_map(Via::OmitTail)];
